@@ -31,7 +31,8 @@ type Obligation struct {
 	// for replay of refuted postconditions
 	Con        *Contract
 	Cl         *Clause
-	ParamTerms map[string]Term // synthetic parameter / result name -> SMT term of its (scalar) value
+	ParamTerms map[string][]Term // synthetic parameter name -> SMT terms of its leaves at function entry
+	ByteHeap   Term              // entry-state contents of byte slices: (select ByteHeap base) is a slice's backing array
 }
 
 type localAlloc struct {
@@ -150,6 +151,28 @@ func (x *Enc) addObl(kind, label, text string, pos token.Pos, guard, goal Term) 
 	}
 	x.obls = append(x.obls, &Obligation{Name: name, Kind: kind, Func: x.top.String(), Pos: p, Text: text,
 		Goal: and(guard, not(goal)), Script: x.sc, NAsserts: len(x.sc.asserts)})
+}
+
+// replayInfo records what a replay of the obligation on the real code needs: the SMT terms of the top function's
+// parameters at entry and the entry-state byte heap.
+func (x *Enc) replayInfo(ob *Obligation, fr *frame, h0 Heap) {
+	if x.con == nil || fr == nil {
+		return
+	}
+	ob.ParamTerms = map[string][]Term{}
+	np := len(fr.fn.Params)
+	for i, n := range x.con.SynParams {
+		if i >= np {
+			break
+		}
+		if v, ok := fr.vals[fr.fn.Params[i]]; ok && v.fp == nil && len(v.ts) > 0 {
+			ob.ParamTerms[n] = v.ts
+		}
+	}
+	bk := elemKeyOf(types.Typ[types.Uint8], "")
+	if _, ok := x.keys[bk]; ok {
+		ob.ByteHeap = x.hget(h0, bk)
+	}
 }
 
 func (x *Enc) addCover(label string, pos token.Pos, cond Term) {
@@ -276,12 +299,8 @@ func (x *Enc) encodeTop() {
 				}
 				x.addObl("ensures", fmt.Sprintf("%s.%s@ret%d", shortFn(fn), label, ri), c.Text, r.pos, r.reach, goal)
 				last := x.obls[len(x.obls)-1]
-				last.Con, last.Cl, last.ParamTerms = x.con, c, map[string]Term{}
-				for n, v := range fr.paramVals(info.params, r.vals) {
-					if len(v.ts) == 1 && v.fp == nil {
-						last.ParamTerms[n] = v.ts[0]
-					}
-				}
+				last.Con, last.Cl = x.con, c
+				x.replayInfo(last, fr, h0)
 			}
 			if !x.con.NoFrame {
 				x.frameObligations(fr, r, ri, h0)
